@@ -229,6 +229,53 @@ def h7_any_guarded_update(ctx, tk, rule, funcs):
                              "the others are shifted too" % (cond, name, val), node=n.ast, engine="KB")
 
 
+GEOM_ATTRS = {"starts", "ends", "lengths", "_codes", "_dtype", "n_rows"}
+
+
+def index_typed(t, d=0):
+    """the term is row geometry / index arithmetic (typed by the configured index dtype), not user data: attributes starts /
+    ends / lengths / _codes / _dtype of any object, buffers allocated like them or with dtype=<such>.dtype, and arithmetic
+    over such terms and integer constants.  numpy's widening of small *data* types is not at stake for these"""
+    if d > 10:
+        return False
+    return all(_index_typed1(a, d) for a in alts(t))
+
+
+def _index_typed1(a, d):
+    k = a.k
+    if k == "const":
+        return isinstance(a.a[0], int) and not isinstance(a.a[0], bool)
+    if k == "attr":
+        if a.a[1] in GEOM_ATTRS:
+            return True
+        if a.a[1] in ("dtype", "size"):
+            return index_typed(a.a[0], d + 1)
+        return False
+    if k in ("sub", "upd"):
+        return index_typed(a.a[0], d + 1)
+    if k == "bin":
+        return index_typed(a.a[1], d + 1) and index_typed(a.a[2], d + 1)
+    if k == "un":
+        return index_typed(a.a[1], d + 1)
+    if k == "call":
+        kw = dict(a.a[2])
+        nm = np_call(a, {"empty_like", "zeros_like", "ones_like", "full_like", "abs", "diff", "cumsum", "flatnonzero", "insert", "append", "pad", "minimum", "maximum"})
+        if nm:
+            if "dtype" in kw:
+                return index_typed(kw["dtype"], d + 1)
+            if nm == "flatnonzero":
+                return True
+            return bool(a.a[1]) and index_typed(a.a[1][0], d + 1)
+        if np_call(a, {"zeros", "empty", "ones", "full", "arange"}):
+            return "dtype" in kw and index_typed(kw["dtype"], d + 1)
+        if a.a[0].k == "attr" and a.a[0].a[1] in ("ravel", "view", "copy", "reshape", "flatten") and not (a.a[0].a[1] == "view" and a.a[1]):
+            return index_typed(a.a[0].a[0], d + 1)
+    return False
+
+
+NON_WIDENING_UFUNCS = {"bitwise_xor", "bitwise_and", "bitwise_or", "maximum", "minimum"}
+
+
 def h8_forced_accumulator(ctx, tk, rule, funcs):
     """np.sum / cumsum / prod with dtype pinned to the operand's own dtype: numpy's default promotes small
     integers (and bool) to the platform integer; pinning makes totals wrap"""
@@ -238,7 +285,7 @@ def h8_forced_accumulator(ctx, tk, rule, funcs):
             dt = dict(c.a[2]).get("dtype")
             if dt is None:
                 continue
-            forced = [a for a in alts(dt) if a.k == "attr" and a.a[1] == "dtype"]
+            forced = [a for a in alts(dt) if a.k == "attr" and a.a[1] == "dtype" and not index_typed(a)]
             plain = [a for a in alts(dt) if a.k == "param" or (a.k == "const" and a.a[0] is None)]
             what = "sums accumulate in numpy's default accumulator type unless the caller asks otherwise"
             if forced:
@@ -839,6 +886,25 @@ def h28_out_buffer_pins_dtype(ctx, tk, rule, funcs):
                 elif dt is not None and dt.k == "attr" and dt.a[1] == "dtype" and not any(x.k == "call" and (attr_chain(x.a[0]) or ("",))[-1] in ("result_type", "promote_types") for x in walk(dt)):
                     srcs.append((base, "`%s`" % (dt,)))
             if srcs:
+                # index arithmetic written into an index-typed buffer: nothing numpy would widen
+                typing = [dict(b.a[2]).get("dtype") if not np_call(b, {"empty_like", "zeros_like", "ones_like"}) else (b.a[1][0] if b.a[1] else None) for b, _ in srcs]
+                if all(tt is not None and index_typed(tt) for tt in typing) and all(index_typed(x) for x in c.a[1]):
+                    continue
+                # bitwise / extremum scans never widen: a buffer typed like their own operand is what numpy allocates anyway
+                uf = attr_chain(c.a[0]) or ()
+                if len(uf) >= 2 and uf[-1] in ("accumulate", "reduce", "reduceat") and uf[-2] in NON_WIDENING_UFUNCS and c.a[1]:
+                    def root(t):
+                        for _ in range(8):
+                            if t.k in ("sub", "upd"):
+                                t = t.a[0]
+                            elif t.k == "attr" and t.a[1] == "dtype":
+                                t = t.a[0]
+                            else:
+                                break
+                        return str(t)
+                    op0 = root(c.a[1][0])
+                    if all(tt is not None and root(tt) == op0 for tt in typing) or str(out) == str(c.a[1][0]):
+                        continue
                 ctx.violated(rule, f, "a result computed with out= keeps the type numpy would choose",
                              "`%s` writes into `%s`, typed by %s: numpy casts the result into that type instead of widening / promoting it (int8 data accumulate in int8 "
                              "and wrap; a wider second operand is cut down)" % (c, srcs[0][0], srcs[0][1]), node=c.node, engine="KB")
@@ -975,6 +1041,157 @@ def h36_strict_negative_bound(ctx, tk, rule, funcs):
                                      "`%s` excludes the index -len(...) itself, which addresses the first element" % ast.unparse(x), node=x, engine="KB")
 
 
+def _accumulating_callee(t, fa, tk, depth=0):
+    """the callee term denotes a cumulative add / xor: np.cumsum, <ufunc>.accumulate, or a helper returning one of them"""
+    for a in alts(t):
+        for x in walk(a):
+            if x.k == "attr" and x.a[1] in ("accumulate", "cumsum"):
+                return True
+        if a.k == "call" and depth < 2:
+            for g in tk.R.resolve_call(a, fa) or ():
+                ga = tk.ctx.fa(g)
+                for r in ga.cfg.returns():
+                    if r.ast.value is not None and _accumulating_callee(ga.term(r.ast.value, r), ga, tk, depth + 1):
+                        return True
+    return False
+
+
+def telescoping_functions(ctx, tk):
+    """{qual: (func, [parameter names])}: functions that rebuild per-position data by storing np.diff(<values>) and running a
+    cumulative add over the buffer (sum of differences == value only in exact arithmetic).  Differences of the object's own
+    geometry (self.starts, self.lengths: integers by construction) are not data"""
+    def build():
+        out = {}
+        for q, f in ctx.program.funcs.items():
+            if not f.params:
+                continue
+            src_has_diff = any(isinstance(x, ast.Attribute) and x.attr == "diff" for x in ast.walk(f.node))
+            if not src_has_diff:
+                continue
+            try:
+                fa = ctx.fa(f)
+            except RecursionError:
+                continue
+            ps = set()
+            for n, c in find_calls(fa, lambda c: np_call(c, {"diff"}) and c.a[1]):
+                for a in alts(c.a[1][0]):
+                    for x in walk(a):
+                        if x.k == "param" and x.a[0] in f.params and not (f.cls is not None and x.a[0] == f.params[0]):
+                            ps.add(x.a[0])
+            if not ps:
+                continue
+            # the differences must flow into the buffer that is accumulated:  b[...] = np.diff(v) / b = concat(.., np.diff(v))
+            def has_diff(e):
+                return any(isinstance(x, ast.Call) and isinstance(x.func, ast.Attribute) and x.func.attr == "diff" for x in ast.walk(e))
+            carriers = set()
+            for st in ast.walk(f.node):
+                if isinstance(st, (ast.Assign, ast.AugAssign)) and has_diff(st.value):
+                    for tg in (st.targets if isinstance(st, ast.Assign) else [st.target]):
+                        while isinstance(tg, (ast.Subscript, ast.Attribute)):
+                            tg = tg.value
+                        if isinstance(tg, ast.Name):
+                            carriers.add(tg.id)
+            def feeds(c):
+                if c.node is None:
+                    return False
+                operands = list(c.node.args) + [k.value for k in c.node.keywords]
+                return any((isinstance(x, ast.Name) and x.id in carriers) or (isinstance(x, ast.Call) and has_diff(x)) for o in operands for x in ast.walk(o))
+            acc = [c for n, c in find_calls(fa, lambda c: True) if feeds(c) and _accumulating_callee(c.a[0], fa, tk)]
+            if acc:
+                out[q] = (f, sorted(ps))
+        return out
+    return ctx.cached("telescoping", build)
+
+
+# flags that vouch for exact (integer) data on the path they guard, with the reason they may be trusted
+EXACT_DATA_MARKERS = {
+    "empty_rows_removed": "set by HashTable lookups only (views of the integer key buckets) and by the index builder of such a view",
+    "empty_removed": "the attribute behind empty_rows_removed()",
+}
+
+
+def h37_telescoping_needs_exact_arithmetic(ctx, tk, rule, funcs):
+    """diff -> cumulative-sum reconstruction of *data* values (a broadcast fast path, a scan that is undone) is exact for
+    integers and bools only: a call into such a function must not be reachable for floating-point data, except under one of
+    the repository's markers for integer-only internal views"""
+    from .guards import reachable_under
+    tel = telescoping_functions(ctx, tk)
+    scope = set(f.qual for f in funcs)
+    for q, (g, ps) in sorted(tel.items()):
+        for cfa, c in tk.R.call_sites(g):
+            if cfa.func.qual not in scope and q not in scope:
+                continue
+            off = 1 if (g.cls is not None and not g.is_staticmethod and c.a[0].k == "attr") else 0
+            subj_terms = []
+            for pn in ps:
+                j = g.params.index(pn) - off
+                arg = c.a[1][j] if 0 <= j < len(c.a[1]) else dict(c.a[2]).get(pn)
+                if arg is not None:
+                    subj_terms.append(arg)
+            roots = set()
+            for t in subj_terms:
+                for a in alts(t):
+                    for x in walk(a):
+                        if x.k == "param":
+                            roots.add(x.a[0])
+            def subj(t, roots=roots):
+                if t.k == "attr" and t.a[1] == "dtype":
+                    t = t.a[0]
+                return any(x.k == "param" and x.a[0] in roots for a in alts(t) for x in walk(a)) and not any(x.k == "call" and x is not t for a in alts(t) for x in walk(a) if x.k == "call" and (attr_chain(x.a[0]) or ("",))[-1] not in ("ravel", "asanyarray", "asarray", "reshape", "flatten", "copy"))
+
+            def assume(t):
+                for x in walk(t):
+                    if x.k == "attr" and x.a[1] in EXACT_DATA_MARKERS:
+                        if t.k in ("call", "attr"):
+                            return False
+                return None
+            sites = [n for n, cc in find_calls(cfa, lambda cc: cc.node is c.node)]
+            what = "a diff / cumulative-sum reconstruction of data values is reached only for exact (integer / bool) data"
+            if not sites:
+                continue
+            reach = reachable_under(cfa, "floating", subj, assume=assume)
+            bad = [n for n in sites if n.id in reach]
+            ctx.decide(rule, cfa.func, what, not bad,
+                       "`%s` is reachable for floating-point data outside the integer-only internal views (%s): summing differences does not give back the values "
+                       "in floating point (inf / nan / mixed magnitudes spill into the following rows)" % (c, ", ".join(sorted(EXACT_DATA_MARKERS)[:1])),
+                       node=c.node, key="telescoping:" + g.name, engine="KB")
+
+
+def h38_no_cells_is_not_no_rows(ctx, tk, rule, funcs):
+    """a shortcut taken when a result has no *cells* (`data.size == 0`, nothing selected) must still have one (empty) row per
+    row of the operand: returning `x[:0]` / `x[0:0]` of a ragged object there hands back zero rows"""
+    for f in funcs:
+        if f.cls is None or not any(k.qual == "raggedarray.base.RaggedBase" for k in f.cls.mro()):
+            continue
+        fa = ctx.fa(f)
+        selfn = f.params[0] if f.params else None
+        for r in fa.cfg.returns():
+            v = r.ast.value
+            if not (isinstance(v, ast.Subscript) and isinstance(v.slice, ast.Slice) and isinstance(v.value, ast.Name) and v.value.id == selfn):
+                continue
+            sl = v.slice
+            zero_rows = isinstance(sl.upper, ast.Constant) and sl.upper.value == 0 and (sl.lower is None or (isinstance(sl.lower, ast.Constant) and sl.lower.value == 0))
+            if not zero_rows:
+                continue
+            cells = []
+            for t, truth, test in facts_at(fa, r):
+                sz = None
+                if t.k == "cmp" and t.a[0] in ("==", "!=") and is_const(t.a[2], 0) and (t.a[0] == "==") == truth:
+                    sz = t.a[1]
+                elif not truth and (t.k == "attr" or t.k == "call"):
+                    sz = t
+                if sz is None:
+                    continue
+                if sz.k == "attr" and sz.a[1] == "size":
+                    cells.append(t)            # .size of a ragged object / of the selected data counts cells
+                elif sz.k == "call" and call_name(sz) == "len" and sz.a[1] and not (sz.a[1][0].k == "param" and sz.a[1][0].a[0] == selfn):
+                    cells.append(t)
+            if cells:
+                ctx.violated(rule, f, "a result without cells keeps the operand's rows (as empty rows)",
+                             "`%s` is returned when `%s` says there are no cells: the rows of the operand are dropped although each of them should come back empty" % (
+                                 ast.unparse(v), cells[0]), node=r.ast, engine="KB")
+
+
 def generic(ctx, tk, rule, funcs, skip=()):
     """all deviance-form hazard rules over a property's function scope"""
     fs = [f for f in funcs if f.qual not in skip]
@@ -1010,6 +1227,8 @@ def generic(ctx, tk, rule, funcs, skip=()):
     h33_truth_of_index_array(ctx, tk, rule + "/H33", fs)
     h34_shallow_copy_keeps_memos(ctx, tk, rule + "/H34", fs)
     h36_strict_negative_bound(ctx, tk, rule + "/H36", fs)
+    h37_telescoping_needs_exact_arithmetic(ctx, tk, rule + "/H37", fs)
+    h38_no_cells_is_not_no_rows(ctx, tk, rule + "/H38", fs)
     from . import wellformed as _W
     _W.report_constant_truth(ctx, tk, rule, fs)
     # H19 (raw ufunc identity stored) depends on which ufunc the caller chose: it is applied by C05 only, where the
